@@ -500,7 +500,7 @@ class Interp:
         if v is None:
             self.raise_(AttributeError, f"{self.where()} None.{name}")
         if isinstance(v, SuperProxy):
-            mro = v.obj.cls.__mro__ if isinstance(v.obj, Obj) else v.obj.__mro__
+            mro = v.obj.cls.__mro__ if isinstance(v.obj, (Obj, Opaque, AbsObj)) else v.obj.__mro__
             idx = mro.index(v.after)
             for k in mro[idx + 1:]:
                 if name in k.__dict__:
@@ -508,7 +508,7 @@ class Interp:
                     if isinstance(raw, property):
                         return self.call_repo(raw.fget, [v.obj], {}, frame, cls_ctx=k)
                     if isinstance(raw, classmethod):
-                        return BoundMethod(raw.__func__, v.obj if not isinstance(v.obj, Obj) else v.obj.cls, k)
+                        return BoundMethod(raw.__func__, v.obj if not isinstance(v.obj, (Obj, Opaque, AbsObj)) else v.obj.cls, k)
                     if isinstance(raw, staticmethod):
                         return raw.__func__
                     if isinstance(raw, types.FunctionType):
